@@ -1,3 +1,4 @@
+import XPathV.Generated.ExtraFacts
 import XPathV.Model.Api
 import XPathV.Lemmas.Facts
 /-!
@@ -60,5 +61,10 @@ theorem number_to_string_spec (d : Doc) (x : F) : asStringM d (.num x) = .ok (Sp
 theorem count_spec (d : Doc) (cfg : ECfg) (c : Ref) (l : List Ref) :
     callFn (F := F) d cfg "count" .nil c [.ok (.nodes l)] none = .ok (.num (ofNat l.length)) := by
   simp [callFn, bind, Except.bind]
+
+/-- T0: `mod` is `math.Mod`, the number rendering arm of `asString` is the XPath one -/
+theorem numeric_sources_ok : Generated.modCallbackSrc = "math.Mod(a,b)" ∧
+    Generated.asStringFloatSrc = "switch{casemath.IsNaN(v):return\"NaN\"casemath.IsInf(v,1):return\"Infinity\"casemath.IsInf(v,-1):return\"-Infinity\"casev==0:return\"0\"};returnstrconv.FormatFloat(v,'f',-1,64)" :=
+  ⟨rfl, rfl⟩
 
 end XPathV.Theorems.C08
